@@ -154,14 +154,13 @@ def alarm(*a): raise TO()
 signal.signal(signal.SIGPROF, alarm); signal.setitimer(signal.ITIMER_PROF, case['limit'])
 import weasyprint.layout.page as P
 orig = P.remake_page
-seen = [0, None, 0]
+seen = {}
 class Unbounded(Exception): pass
 def rp(index, *a):
     r = orig(index, *a)
     key = repr(r[1])
-    seen[2] = seen[2] + 1 if key == seen[1] else 0
-    seen[1] = key
-    if seen[2] > 300: raise Unbounded()
+    seen[key] = seen.get(key, 0) + 1
+    if r[1] is not None and seen[key] > 150: raise Unbounded()   # the same resume point again and again
     return r
 P.remake_page = rp
 from tests.testing_utils import FakeHTML
